@@ -197,7 +197,27 @@ func c08(c *Ctx) {
 			}
 		}
 		anyB := func(v ssa.Value) bool { return true }
-		wb := one(c, "verbatim WriteByte in the escaping encoder", callsIn(encU, CalleeX("strings", "Builder.WriteByte")))
+		// WriteByte calls are classified by what they write: the constant '%' (escape lead), a digit looked up in
+		// a constant hex table (escape digit), or anything else (a byte of the message, written verbatim).
+		var verb, leads []ssa.CallInstruction
+		var hexIdx []ssa.Value
+		for _, w := range callsIn(encU, CalleeX("strings", "Builder.WriteByte")) {
+			a := stripConv(w.Common().Args[1])
+			if k, ok := a.(*ssa.Const); ok && k.Value != nil {
+				if k.Int64() == '%' {
+					leads = append(leads, w)
+					continue
+				}
+			}
+			if x, idx := stringIndex(a); x != nil {
+				if k, ok := x.(*ssa.Const); ok && k.Value != nil && k.Value.Kind() == constant.String && constant.StringVal(k.Value) == "0123456789ABCDEF" {
+					hexIdx = append(hexIdx, stripConv(idx))
+					continue
+				}
+			}
+			verb = append(verb, w)
+		}
+		wb := one(c, "verbatim WriteByte in the escaping encoder", verb)
 		bv := wb.Common().Args[1]
 		isB := func(v ssa.Value) bool { return stripConv(v) == stripConv(bv) }
 		for _, fm := range printable(isB) {
@@ -212,7 +232,25 @@ func c08(c *Ctx) {
 			n++
 			c.ArgIs(fp, 1, "escape-is-%XX", ConstStr("%%%02X"))
 		}
-		c.Expect(n == 2, nil, encU, "two-escape-sites", "expected two escape sites (multi-byte rune, unprintable byte)")
+		if len(leads) == 0 && len(hexIdx) == 0 {
+			c.Expect(n == 2, nil, encU, "two-escape-sites", "expected two escape sites (multi-byte rune, unprintable byte)")
+		} else {
+			// table form of the same escape: '%', then the high and the low nibble of one and the same byte,
+			// in upper-case hex, written in that order in one block.
+			c.Expect(n == 0, nil, encU, "one-escape-form", "the escaping encoder mixes formatted and table-driven escapes")
+			c.Expect(len(leads) >= 1 && len(hexIdx) == 2*len(leads), nil, encU, "escape-is-%XX", "each '%' written must be followed by exactly two hex digits")
+			for i := 0; i+1 < len(hexIdx); i += 2 {
+				hi, okh := hexIdx[i].(*ssa.BinOp)
+				lo, okl := hexIdx[i+1].(*ssa.BinOp)
+				good := okh && okl && hi.Op == token.SHR && lo.Op == token.AND && isConstInt(hi.Y, 4) && isConstInt(lo.Y, 15) &&
+					stripConv(hi.X) == stripConv(lo.X) && hi.Block() == lo.Block()
+				c.Expect(good, nil, encU, "escape-is-%XX", "the two hex digits are not the high nibble then the low nibble of one byte")
+				if good && i/2 < len(leads) {
+					lead := leads[i/2]
+					c.Expect(lead.Block() == hi.Block(), lead, encU, "escape-is-%XX", "the '%' and its two digits are not written together")
+				}
+			}
+		}
 	})
 	c.Ob("wrappers-and-termination", "R2", "the fast-path wrappers return the empty string only for an empty message, the message itself only after the whole scan found nothing to (un)escape, and otherwise the result of the escaping coder applied to that message; the escaping encoder's loop runs only while bytes remain, and its per-byte loop over a rune is never left early", 6, func() {
 		for _, w := range []struct {
@@ -330,4 +368,9 @@ func stringIndex(v ssa.Value) (ssa.Value, ssa.Value) {
 		}
 	}
 	return nil, nil
+}
+
+func isConstInt(v ssa.Value, n int64) bool {
+	k, ok := stripConv(v).(*ssa.Const)
+	return ok && k.Value != nil && k.Value.Kind() == constant.Int && k.Int64() == n
 }
